@@ -805,8 +805,24 @@ fn apply_span_edits(src: &str, span_edits: &mut [SpanEdit]) -> String {
     span_edits.sort_by_key(|b| std::cmp::Reverse(b.start_offset));
 
     let mut result = src.to_owned();
+    // The span of the last edit we applied, which is the next one in
+    // the source.
+    let mut next_span: Option<(usize, usize)> = None;
     for edit in span_edits.iter() {
+        // When the source has syntax errors, two edits can overlap or
+        // cover the same span. Skip an edit that reaches into the one
+        // after it, otherwise we would replace the wrong text, and
+        // don't apply the same edit twice.
+        if let Some((next_start, next_end)) = next_span {
+            if edit.end_offset > next_start
+                || (edit.start_offset, edit.end_offset) == (next_start, next_end)
+            {
+                continue;
+            }
+        }
+
         result.replace_range(edit.start_offset..edit.end_offset, &edit.replacement);
+        next_span = Some((edit.start_offset, edit.end_offset));
     }
 
     result
